@@ -1822,6 +1822,7 @@ func (x *Exec) onChanClauses(s *State, cv Val, v Val, site ssa.Instruction, recv
 		env.lets["elem"] = v
 		env.lets["ch"] = c
 		if oc.Assert != nil {
+			x.checkParamsUnchanged(s, oc.Assert.Expr, "at-send "+oc.ChanSrc+" ["+oc.Assert.Label+"]")
 			t := env.evalBool(oc.Assert.Expr)
 			x.oblige(s, "assert", fmt.Sprintf("%s@%s", oc.Assert.Label, x.label(s, site)), t, site, oc.Assert.Src)
 			s.assume(t)
